@@ -168,7 +168,7 @@ var c14DBs = []c14DB{
 	{[]AuthUser{{"alice", "s3cret"}}},
 	{[]AuthUser{{"alice", "s3cret"}, {"bob", "s3cret"}, {"carol", ""}}},
 	{[]AuthUser{{"alice", "pässwörd-ü"}, {"Alice", "other"}, {"dave", "x"}, {"erin", "a b c"}, {"frank", "S3cret"}}},
-	{[]AuthUser{{"münchen", "geheim"}, {"u2", "pw2"}}},
+	{[]AuthUser{{"münchen", "geheim"}, {"u2", "pw2"}, {"carl", "Pa$$w0rd"}, {"dora", "Tr0ub4dor$3"}, {"emil", "${HOME}"}, {"fay", "100%s"}}},
 }
 
 type c14Msg struct {
@@ -266,6 +266,12 @@ func c14History(rep *Report, be ntlmBackend, db c14DB, seed int64, id int, mode 
 		shadows[i] = &c14Shadow{}
 	}
 	sid := func(i int) string { return fmt.Sprintf("h%d-m%d-s%d", id, mode, i) }
+	if id%3 == 1 {
+		// session ids as the gateway forms them for an IPv6 peer: longer than 32 bytes and equal up to the port
+		sid = func(i int) string {
+			return fmt.Sprintf("[2001:db8:%x:%x:1319:8a2e:370:7348]:%d", id&0xffff, mode+1, 50000+i)
+		}
+	}
 	pw := map[string]string{}
 	for _, u := range db.users {
 		pw[u.Name] = u.Password
